@@ -460,3 +460,6 @@ func trunc(b []byte, n int) string {
 	}
 	return string(b)
 }
+
+// rmTree removes a directory tree (kept separate so that callers can run it late, after stuck goroutines).
+func rmTree(p string) error { return os.RemoveAll(p) }
